@@ -31,6 +31,9 @@ BUDGET = {"quick": {"workers": 8, "examples": 300, "seconds": 45},
           "thorough": {"workers": 16, "examples": 4000, "seconds": 600}}
 
 AGENTS = ["a1", "a2", "a3"]
+# agent names are part of the case: sets where one name is a prefix of another (a1 / a10), as in any deployment with
+# more than nine agents
+AGENT_SETS = [["a1", "a2", "a3"], ["a1", "a2", "a3"], ["a1", "a10", "a2"], ["a12", "a1", "a10"], ["agt", "ag", "a"]]
 COMPS = ["c1", "c2", "c10"]
 MODES = ["nocb", "cb", "oneshot"]
 
@@ -155,6 +158,11 @@ def case_strategy(tier):
         # A's own replica first, then its first subscription with a callback
         if draw(st.booleans()):
             second = [("pub_replica", c, A), ("sub_replica", A, c, draw(st.sampled_from(["cb", "oneshot"])))] + second
+        if draw(st.integers(0, 2)) == 0:
+            # several callbacks of one agent on the replicas of c, then one of them is withdrawn
+            second += [("sub_replica", A, c, "cb") for _ in range(draw(st.integers(1, 2)))]
+            second += [("deliver", 60, 0)] if draw(st.booleans()) else []
+            second += [("unsub_replica", A, c, "one")]
         third = weave(draw, [[draw(st.sampled_from([("pub_replica", c, H), ("pub_replica", c, B), ("unpub_replica", c, H),
                                                     ("unpub_replica", c, B), ("unpub_replica", c, A)]))
                               for _ in range(draw(st.integers(1, 3)))]])
@@ -175,7 +183,8 @@ def case_strategy(tier):
                 ops += [("sub_agent", A, X, "nocb")]
         return [], ops, draw(st.booleans())
 
-    return st.one_of(st.tuples(pre, body, quiet), focused(), replica_story(), rejoin_story()).map(assemble)
+    histories = st.one_of(st.tuples(pre, body, quiet), focused(), replica_story(), rejoin_story()).map(assemble)
+    return st.tuples(histories, st.sampled_from(AGENT_SETS)).map(lambda t: dict(t[0], agents=t[1]))
 
 
 class Sub:
@@ -205,7 +214,8 @@ class Recorder:
 
 def run_case(case):
     ops = case["ops"]
-    labels = []
+    AGENTS = case.get("agents") or ["a1", "a2", "a3"]
+    labels = ["names:prefix"] if any(x != y and y.startswith(x) for x in AGENTS for y in AGENTS) else []
     raised = []
     try:
         with under_test():
@@ -266,6 +276,63 @@ def run_case(case):
                             return True
             return False
 
+        # ---- oracle: at a quiescent point (nothing in flight) every subscribed view equals the directory's data
+        state = {"checked": 0, "nontrivial": False}
+
+        def oracle():
+            checked = 0
+            nontrivial = state["nontrivial"]
+            agreed = set()
+            disagreed = set()
+            handler_errors = list(net.errors)
+            for (a, k, x), s in sorted(subs.items()):
+                if not s.dir_subscribed or s.ambiguous or a in tainted_agents or a not in registered:
+                    continue
+                if k == "agent" and x in tainted_agents and not rejoin_count.get(x):
+                    continue   # the agent left and never came back: nothing to converge to
+                if k == "agent":
+                    exp = _get(ddisc.agent_address, x)
+                    got = _get(disc[a].agent_address, x)
+                elif k == "comp":
+                    exp = _get(directory.computation_agent, x)
+                    got = _get(disc[a].computation_agent, x)
+                else:
+                    exp = _get(ddisc.replica_agents, x)
+                    got = _get(disc[a].replica_agents, x)
+                    if exp == "<unknown>" or got == "<unknown>":
+                        # the computation itself is unknown on one side: replica sets are not comparable
+                        continue
+                checked += 1
+                (agreed if exp == got else disagreed).add(x)
+                later = changed_at.get((k, x), -1) > (s.since if s.since is not None else 10**9)
+                nontrivial = nontrivial or (later and interleaved[0])
+                if exp != got:
+                    return Outcome(False, "%s is subscribed to %s %s since op %s: its view says %r, the directory says %r "
+                                   "(operations that raised: %r; handler errors: %r)" % (
+                                       a, k, x, s.since, got, exp, raised[:3], [e[2:4] for e in handler_errors[:2]]),
+                                   True, labels + ["kind:" + k], info={"phase": "view", "kind": k, "raised": len(raised), "racy_item": x in racy, "gap_change": s.gap_change,
+                                                                       "handler_errors": len(handler_errors)})
+                for rec in s.cbs:
+                    if rec.oneshot or not rec.events:
+                        continue
+                    evt, item, value = rec.events[-1]
+                    ok = True
+                    if k == "agent":
+                        ok = (evt == "agent_added" and exp != "<unknown>" and value == exp) or \
+                             (evt == "agent_removed" and exp == "<unknown>")
+                    elif k == "comp":
+                        ok = (evt == "computation_added" and value == exp) or (evt == "computation_removed" and exp == "<unknown>")
+                    if not ok:
+                        return Outcome(False, "%s: last callback event for %s %s is %r but the directory says %r" % (
+                            a, k, x, rec.events[-1], exp), True, labels, info={"phase": "callback", "kind": k, "racy_item": x in racy})
+            state["checked"] = max(state["checked"], checked)
+            state["nontrivial"] = nontrivial
+            # the item's views all agree with the directory and nothing is in flight: an earlier in-flight
+            # race about it has left no trace (the listed race finding is about views that END stale)
+            for x in agreed - disagreed:
+                racy.discard(x)
+            return None
+
         for idx, o in enumerate(ops):
             kind = o[0]
             CURRENT[0] = idx
@@ -290,6 +357,10 @@ def run_case(case):
                 if net.pending():
                     interleaved[0] = True
                 deliver(o[1], o[2])
+                if not net.pending() and not net.errors:
+                    bad = oracle()
+                    if bad is not None:
+                        return bad
             elif kind == "reg_agent":
                 a = AGENTS[o[1]]
                 if a not in registered:
@@ -419,48 +490,10 @@ def run_case(case):
                 break
             deliver(500, 0)
         handler_errors = list(net.errors)
-        # ---- oracle
-        checked = 0
-        nontrivial = False
-        for (a, k, x), s in sorted(subs.items()):
-            if not s.dir_subscribed or s.ambiguous or a in tainted_agents or a not in registered:
-                continue
-            if k == "agent" and x in tainted_agents and not rejoin_count.get(x):
-                continue   # the agent left and never came back: nothing to converge to
-            if k == "agent":
-                exp = _get(ddisc.agent_address, x)
-                got = _get(disc[a].agent_address, x)
-            elif k == "comp":
-                exp = _get(directory.computation_agent, x)
-                got = _get(disc[a].computation_agent, x)
-            else:
-                exp = _get(ddisc.replica_agents, x)
-                got = _get(disc[a].replica_agents, x)
-                if exp == "<unknown>" or got == "<unknown>":
-                    # the computation itself is unknown on one side: replica sets are not comparable
-                    continue
-            checked += 1
-            later = changed_at.get((k, x), -1) > (s.since if s.since is not None else 10**9)
-            nontrivial = nontrivial or (later and interleaved[0])
-            if exp != got:
-                return Outcome(False, "%s is subscribed to %s %s since op %s: its view says %r, the directory says %r "
-                               "(operations that raised: %r; handler errors: %r)" % (
-                                   a, k, x, s.since, got, exp, raised[:3], [e[2:4] for e in handler_errors[:2]]),
-                               True, labels + ["kind:" + k], info={"phase": "view", "kind": k, "raised": len(raised), "racy_item": x in racy, "gap_change": s.gap_change,
-                                                                   "handler_errors": len(handler_errors)})
-            for rec in s.cbs:
-                if rec.oneshot or not rec.events:
-                    continue
-                evt, item, value = rec.events[-1]
-                ok = True
-                if k == "agent":
-                    ok = (evt == "agent_added" and exp != "<unknown>" and value == exp) or \
-                         (evt == "agent_removed" and exp == "<unknown>")
-                elif k == "comp":
-                    ok = (evt == "computation_added" and value == exp) or (evt == "computation_removed" and exp == "<unknown>")
-                if not ok:
-                    return Outcome(False, "%s: last callback event for %s %s is %r but the directory says %r" % (
-                        a, k, x, rec.events[-1], exp), True, labels, info={"phase": "callback", "kind": k, "racy_item": x in racy})
+        bad = oracle()
+        if bad is not None:
+            return bad
+        checked, nontrivial = state["checked"], state["nontrivial"]
         labels.append("asserted:%d" % min(checked, 4))
         if raised:
             labels.append("api-raised")
